@@ -17,6 +17,28 @@ func (e *kvElection) verifYield(site string) {
 	}
 }
 
+// VerifHeld, when set, is told about mutex acquisitions (+1, after Lock/RLock
+// returned) and releases (-1, before Unlock/RUnlock) of the calling goroutine.
+// This package contains no call sites: the verification build instruments a
+// scratch copy of the sources (a yield before every lock acquisition, and
+// these notifications) so that a harness never parks a goroutine that holds
+// a lock.
+var VerifHeld func(delta int)
+
+func verifHeld(delta int) {
+	if f := VerifHeld; f != nil {
+		f(delta)
+	}
+}
+
+// verifPreLock is the yield inserted before every lock acquisition by the
+// verification build's instrumentation.
+func verifPreLock(site string) {
+	if f := VerifYield; f != nil {
+		f("", site)
+	}
+}
+
 // VerifNewKeyValue wraps a nats.KeyValue in the package's real (unexported)
 // adapter, so that a harness can run the adapter code over a simulated bucket.
 func VerifNewKeyValue(kv nats.KeyValue) KeyValue {
